@@ -189,7 +189,20 @@ def locate_fn(d):
     """-> (src, masked, Item, impl_header or None)"""
     src, masked = load(d.file)
     sel = d.sel.strip()
-    parts = [p.strip() for p in sel.split('>')]
+    parts, depth, cur = [], 0, ''
+    for ch in sel:
+        if ch == '<':
+            depth += 1
+            cur += ch
+        elif ch == '>' and depth > 0:
+            depth -= 1
+            cur += ch
+        elif ch == '>':
+            parts.append(cur.strip())
+            cur = ''
+        else:
+            cur += ch
+    parts.append(cur.strip())
     head = parts[0]
     impl_header = None
     if '::' in head:
